@@ -26,7 +26,7 @@ SITES = ['A', 'B', 'C', 'D', 'E', 'F']
 USER_AMPS = ['', 'std_medium_gain', 'std_low_gain', 'std_high_gain', 'std_fixed_gain', 'high_detail_model_example',
              'openroadm_ila_low_noise', 'medium+low_gain', 'operator_model_example']
 
-LENGTHS_KM = [80.0, 50.0, 100.0, 20.0, 120.0, 60.0, 1.0, 160.0, 0.05, 250.0, 35.5, 400.0]
+LENGTHS_KM = [80.0, 50.0, 100.0, 20.0, 120.0, 60.0, 1.0, 160.0, 0.05, 250.0, 35.5, 400.0, 140.0, 130.0]
 
 
 # --------------------------------------------------------------------------------------------------------------
@@ -94,7 +94,7 @@ def equipment_strategy(draw, flavour):
     si['f_min'], si['f_max'] = band
     si['spacing'] = draw(st.sampled_from([50e9, 50e9, 75e9, 100e9, 37.5e9]))
     si['baud_rate'] = 32e9 if si['spacing'] < 75e9 else draw(st.sampled_from([32e9, 64e9]))
-    si['power_dbm'] = draw(st.sampled_from([0, 0, 1, -1, 2, -2.5]))
+    si['power_dbm'] = draw(st.sampled_from([0, 0, 1, -1, 2, -2.5, 3, 1.5, 2.5]))
     si['sys_margins'] = draw(st.sampled_from([2, 0, 1, 3, 1.5]))
     si['tx_osnr'] = draw(st.sampled_from([40, 100, 35]))
     if draw(st.booleans()):
@@ -129,6 +129,11 @@ def equipment_strategy(draw, flavour):
     if draw(st.integers(0, 3)) == 0:
         amp = next(a for a in eq['Edfa'] if a['type_variety'] == 'std_medium_gain')
         amp['other_name'] = ['std_medium_gain_bis', 'alias_mg']
+    if draw(st.integers(0, 3)) == 0:
+        for amp in eq['Edfa']:
+            if amp['type_variety'] in draw(st.sampled_from([('std_medium_gain', 'std_low_gain'), ('std_medium_gain',),
+                                                            ('std_high_gain', 'std_low_gain', 'std_medium_gain')])):
+                amp['out_voa_auto'] = True
     # extra fibre types, among them a dispersion-compensating one (negative dispersion is legal in the library)
     if draw(st.integers(0, 2)) == 0:
         eq['Fiber'].append({'type_variety': 'NEGD', 'dispersion': draw(st.sampled_from([-1.0e-05, -2.0e-05, -4e-06])),
@@ -203,8 +208,13 @@ def topology_strategy(draw, flavour, eqpt):
             a, b = sites[x], sites[y]
             nf = draw(st.integers(1, 3))
             chain = []
-            if draw(st.integers(0, 4)) == 0:
+            lead = draw(st.integers(0, 9))
+            if lead in (0, 1):
                 chain.append(draw(user_amp_strategy(f'booster {a}{b}')))
+            elif lead == 2:
+                # ROADM -> Fused -> fibre: auto-design inserts no booster on such a degree
+                chain.append({'uid': f'lead fused {a}{b}', 'type': 'Fused', 'metadata': _loc(x),
+                              'params': {'loss': draw(st.sampled_from([0, 1, 0.5]))}})
             for k in range(nf):
                 length = draw(st.sampled_from(LENGTHS_KM))
                 fib = {'uid': f'fiber ({a} → {b})-{k}', 'type': 'Fiber',
@@ -395,7 +405,10 @@ def multiband_world_strategy(draw):
         connections.append({'from_node': f'trx {s}', 'to_node': f'roadm {s}'})
         connections.append({'from_node': f'roadm {s}', 'to_node': f'trx {s}'})
     bands = [{'f_min': 191.3e12, 'f_max': 196.0e12}, {'f_min': 187.0e12, 'f_max': 190.0e12}]
-    kinds = ['mb_no_design', 'mb_type_variety', 'mb_no_design', 'single', 'single_reduced']
+    kinds = ['mb_no_design', 'mb_type_variety', 'mb_no_design', 'single', 'single_reduced', 'mb_mixed', 'mb_explicit']
+    groups = {a['type_variety']: a['amplifiers'] for a in MB_EQPT['Edfa'] if a.get('type_def') == 'multi_band'}
+    mb_varieties = ['std_medium_gain_multiband', 'std_low_gain_multiband', 'std_low_gain_multiband_bis',
+                    'std_low_gain_multiband_reduced', 'std_low_gain_multiband_reduced_bis', 'std_low_gain_multiband_ter']
     for (ia, ib) in links:
         kind0 = draw(st.sampled_from(kinds))
         for d, (x, y) in enumerate(((ia, ib), (ib, ia))):
@@ -409,6 +422,16 @@ def multiband_world_strategy(draw):
                 el = {'uid': uid, 'type': typ, 'metadata': _loc(x)}
                 if kind == 'mb_type_variety':
                     el['type_variety'] = 'std_medium_gain_multiband'
+                if kind == 'mb_mixed':
+                    # user-chosen multiband varieties whose bands differ inside the same outer extent
+                    el['type_variety'] = draw(st.sampled_from(mb_varieties))
+                if kind == 'mb_explicit':
+                    # the user states the amplifier of each band (what an exported design contains)
+                    tv = draw(st.sampled_from(mb_varieties))
+                    el['type_variety'] = tv
+                    el['amplifiers'] = [{'type_variety': sb, 'operational': {
+                        'gain_target': draw(st.sampled_from([None, 15.0, 18.0])), 'delta_p': draw(st.sampled_from([0, 1, None])),
+                        'tilt_target': 0, 'out_voa': draw(st.sampled_from([0, 1]))}} for sb in groups[tv]]
                 if kind == 'single_reduced':
                     el['type_variety'] = 'std_low_gain_reduced_band'
                 return el
